@@ -108,6 +108,15 @@ fn build_tree() -> Tree {
     std::fs::create_dir(base.join("e")).unwrap();
     top.insert("e".into(), Node::Dir { id: id_of(&base.join("e")), entries: BTreeMap::new() });
     top.insert("e.gz".into(), mk_file(&base.join("e.gz")));
+    // a .gz sibling that exists, is not a directory and is not a regular file either (a character
+    // device reached through a symlink; `Node::File` means "not a directory" in the model)
+    top.insert("g".into(), mk_file(&base.join("g")));
+    std::os::unix::fs::symlink("/dev/null", base.join("g.gz")).unwrap();
+    top.insert("g.gz".into(), Node::File { id: id_of(&base.join("g.gz")) });
+    // an empty .gz sibling
+    top.insert("h".into(), mk_file(&base.join("h")));
+    std::fs::write(base.join("h.gz"), b"").unwrap();
+    top.insert("h.gz".into(), Node::File { id: id_of(&base.join("h.gz")) });
     let root = Node::Dir { id: id_of(&base), entries: top };
     Tree { _tmp: tmp, base, root, secret }
 }
@@ -255,7 +264,7 @@ fn run_dir(c: &DirCase, sink: &mut Sink) -> (Verdict, Option<u64>, Value) {
 }
 
 const SEGS: [&str; 9] = ["a", "sub", "..", ".", "...", "..a", "a..", "", "secret"];
-const EXTRA_SEGS: [&str; 16] = ["b", "c", "d", "e", "c.gz", "a.gz", "....gz", "nonexistent", "a.gz.gz", "b.gz", "b.gz.gz", "d.gz", "f.tar", "f.tar.gz", "f.tar.gz.gz", "e.gz"];
+const EXTRA_SEGS: [&str; 20] = ["g", "g.gz", "h", "h.gz", "b", "c", "d", "e", "c.gz", "a.gz", "....gz", "nonexistent", "a.gz.gz", "b.gz", "b.gz.gz", "d.gz", "f.tar", "f.tar.gz", "f.tar.gz.gz", "e.gz"];
 
 fn paths(max_segs: usize) -> Vec<String> {
     let mut out: Vec<String> = vec![String::new()];
@@ -323,7 +332,7 @@ impl Prop for C19 {
         "exploration"
     }
     fn rule(&self, ctx: &Ctx) -> String {
-        format!("exhaustive: every path of <= {} segments over {{a, sub, .., ., ..., ..a, a.., empty, secret}} joined by '/', with and without a leading slash (trailing slashes = empty last segment), plus names around the .gz logic (file with sibling, file without, sibling that is a directory, .gz-only name, directory with a .gz file sibling); a NUL byte inserted at every position of 300 of them; x Accept-Encoding {{absent, gzip, identity, gzip;q=0, *, gzip;q=0.5 vs identity;q=0.6}} x auto_gzip on/off; on a real tree with a 'secret' file next to the base directory. Oracle: in-memory POSIX relative-path resolver (self-checked against the kernel on every non-rejected path) giving the expected (dev, inode) or errno. Non-trivial = distinct (path, Accept-Encoding, auto_gzip) judged; descriptor count of the process must return to its baseline", max_segs(ctx))
+        format!("exhaustive: every path of <= {} segments over {{a, sub, .., ., ..., ..a, a.., empty, secret}} joined by '/', with and without a leading slash (trailing slashes = empty last segment), plus names around the .gz logic (file with sibling, file without, sibling that is a directory, sibling that is a character device, empty sibling, .gz-only name, directory with a .gz file sibling); a NUL byte inserted at every position of 300 of them; x Accept-Encoding {{absent, gzip, identity, gzip;q=0, *, gzip;q=0.5 vs identity;q=0.6}} x auto_gzip on/off; on a real tree with a 'secret' file next to the base directory. Oracle: in-memory POSIX relative-path resolver (self-checked against the kernel on every non-rejected path) giving the expected (dev, inode) or errno. Non-trivial = distinct (path, Accept-Encoding, auto_gzip) judged; descriptor count of the process must return to its baseline", max_segs(ctx))
     }
     fn n_blocks(&self, _: &Ctx) -> usize {
         12 + 1 + 1
